@@ -3,6 +3,8 @@
 pub mod c01_04;
 pub mod c05;
 pub mod c06;
+pub mod c08;
+pub mod c09;
 pub mod c10;
 pub mod c11;
 pub mod c12;
@@ -25,6 +27,8 @@ pub fn run(ctx: &Ctx) -> Option<Report> {
         "C01" | "C02" | "C03" | "C04" => c01_04::run(ctx),
         "C05" => c05::run(ctx),
         "C06" => c06::run(ctx),
+        "C08" => c08::run(ctx),
+        "C09" => c09::run(ctx),
         "C10" => c10::run(ctx),
         "C11" => c11::run(ctx),
         "C12" => c12::run(ctx),
@@ -45,6 +49,8 @@ pub fn replay(id: &str, engine: &str, case: &Value) -> Result<(), String> {
         "C01" | "C02" | "C03" | "C04" => c01_04::replay(id, case),
         "C05" => c05::replay(engine, case),
         "C06" => c06::replay(case),
+        "C08" => c08::replay(engine, case),
+        "C09" => c09::replay(engine, case),
         "C10" => c10::replay(engine, case),
         "C11" => c11::replay(engine, case),
         "C12" => c12::replay(engine, case),
